@@ -587,3 +587,32 @@ def completion_event_contract(chk, prefix="C03"):
             chk.prove(f"{prefix}.event.contract.wait", s.pc, goal, desc="wait(timeout) blocks on the event with the caller's timeout (None = until it is set), then raises the stored error if there is one and otherwise returns the event's answer (True iff it was set)")
         break_ = stored_none
     return None
+
+
+def raise_if_orphaned_contract(chk, prefix="C10"):
+    """ExecutionState.raise_if_orphaned(id): OrphanedChildException iff the id is marked, under the lock, nothing changed"""
+    eng = Engine(hooks=StateHooks())
+    eng.container_models["zset"] = eng.container_models["zsetview"] = eng.container_models["zmapset"] = SetModel()
+    P = eng.program
+    cls = P.cls("state.ExecutionState")
+    if cls.find_method("raise_if_orphaned") is None:
+        chk.prove(f"{prefix}.state.raise_if_orphaned", [], z3.BoolVal(False), desc="ExecutionState offers an orphan test for operations that send no START (raise_if_orphaned)")
+        return None
+    st = St()
+    chk.function("state.ExecutionState.raise_if_orphaned")
+    done = new_zset(st, name="parent_done")
+    d0 = st.get(done)["arr"]
+    self_ = st.alloc(cls, {"_parent_done": done, "_parent_done_lock": st.alloc("opaque:Lock", {})})
+    oid = fresh("str", "operation_id")
+    for k, v, s in eng.run(cls.find_method("raise_if_orphaned"), [self_, oid], st=st):
+        chk.paths += 1
+        marked = z3.Select(d0, oid.t)
+        locks = [e.kind for e in s.trace if e.kind in ("lock_enter", "lock_exit")]
+        same = arr_of(s, done) == d0
+        if k == "raise":
+            goal = z3.And(marked, z3.BoolVal(isinstance(v, Ref) and getattr(v.cls, "name", "") == "OrphanedChildException"), same)
+        else:
+            goal = z3.And(z3.Not(marked), z3.BoolVal(v is None), same)
+        chk.prove(f"{prefix}.state.raise_if_orphaned", s.pc, z3.And(goal, z3.BoolVal(locks[:1] == ["lock_enter"])),
+                  desc="raise_if_orphaned(id) raises OrphanedChildException exactly when id is marked as under a completed context (read under _parent_done_lock) and changes nothing")
+    return eng
